@@ -19,12 +19,44 @@ type SharedDecl struct {
 	Startup map[string]bool // function names allowed to write (run before requests are served)
 	Globals bool
 	Reviewed map[string]bool // package-level variables whose address may escape to calls while serving
+	Mutable  map[string]bool // types whose instances are per-session mutable state reachable from shared state (own synchronisation discipline: lockflow)
 }
 
-// sharedRoot walks an address/value back to its origin and reports whether it derives
-// from shared state; desc describes the path.
+// hasRefs: values of this type can alias memory (pointer, slice, map, or a struct/array holding one).
+func hasRefs(t types.Type, depth int) bool {
+	if depth > 6 {
+		return true
+	}
+	switch u := t.Underlying().(type) {
+	case *types.Pointer, *types.Slice, *types.Map, *types.Interface, *types.Chan, *types.Signature:
+		return true
+	case *types.Struct:
+		for i := 0; i < u.NumFields(); i++ {
+			if hasRefs(u.Field(i).Type(), depth+1) {
+				return true
+			}
+		}
+	case *types.Array:
+		return hasRefs(u.Elem(), depth+1)
+	case *types.Tuple:
+		for i := 0; i < u.Len(); i++ {
+			if hasRefs(u.At(i).Type(), depth+1) {
+				return true
+			}
+		}
+	}
+	return false
+}
+
+// sharedRoot reports whether VALUE v (a pointer, slice, map, or a struct value holding such
+// references) derives from shared state: a parameter / receiver / captured variable of a declared
+// shared type, a package-level variable, a parameter that some caller hands shared state to
+// (c.sharedParams, interprocedural fixpoint), or anything loaded, indexed, sliced, looked up,
+// appended to or copied (struct value) out of such a value. A store through a shared pointer,
+// into an element of a shared slice/array, or a map update / append / copy with a shared
+// destination is a write to shared state.
 func (c *Ctx) sharedRoot(v ssa.Value, sd *SharedDecl, depth int, seen map[ssa.Value]bool) (bool, string) {
-	if depth > 12 || seen[v] {
+	if depth > 16 || seen[v] {
 		return false, ""
 	}
 	seen[v] = true
@@ -41,10 +73,29 @@ func (c *Ctx) sharedRoot(v ssa.Value, sd *SharedDecl, depth int, seen map[ssa.Va
 		}
 		return false, ""
 	}
+	// session state with its own discipline (declared mutable_types) is not read-only shared state
+	{
+		t := v.Type()
+		for {
+			if pt, ok := t.Underlying().(*types.Pointer); ok {
+				t = pt.Elem()
+				continue
+			}
+			break
+		}
+		if n, ok := t.(*types.Named); ok && n.Obj().Pkg() != nil && strings.HasPrefix(n.Obj().Pkg().Path(), repoMod) && sd.Mutable[n.Obj().Name()] {
+			return false, ""
+		}
+	}
 	switch x := v.(type) {
 	case *ssa.Parameter:
 		if ok, n := isSharedType(x.Type()); ok {
-			return true, "param " + x.Name() + " (" + n + ")"
+			if _, isPtr := x.Type().Underlying().(*types.Pointer); isPtr || hasRefs(x.Type(), 0) {
+				return true, "param " + x.Name() + " (" + n + ")"
+			}
+		}
+		if d, ok := c.sharedParams[x]; ok {
+			return true, "param " + x.Name() + " <- " + d
 		}
 	case *ssa.FreeVar:
 		if ok, n := isSharedType(x.Type()); ok {
@@ -55,48 +106,81 @@ func (c *Ctx) sharedRoot(v ssa.Value, sd *SharedDecl, depth int, seen map[ssa.Va
 			return true, "global " + x.Name()
 		}
 	case *ssa.Alloc:
-		// a local: shared only if something shared was stored into it (pointer copy)
-		if refs := x.Referrers(); refs != nil {
-			for _, r := range *refs {
-				if st, ok := r.(*ssa.Store); ok && st.Addr == x {
-					if _, isPtr := st.Val.Type().Underlying().(*types.Pointer); isPtr {
-						if ok, d := c.sharedRoot(st.Val, sd, depth+1, seen); ok {
-							return true, d
-						}
-					}
-				}
-			}
-		}
+		// the ADDRESS of a local is private; what matters is what was stored into it (see localHolds)
+		return false, ""
 	case *ssa.FieldAddr:
+		// address of a field: shared iff the struct it lies in is reached through a shared pointer
 		return c.sharedRoot(x.X, sd, depth+1, seen)
 	case *ssa.IndexAddr:
 		return c.sharedRoot(x.X, sd, depth+1, seen)
 	case *ssa.UnOp:
 		if x.Op == token.MUL {
-			// loading a pointer/slice/map out of shared state yields shared state;
-			// loading a struct VALUE makes a private copy
-			switch x.Type().Underlying().(type) {
-			case *types.Pointer, *types.Slice, *types.Map:
-				return c.sharedRoot(x.X, sd, depth+1, seen)
+			if !hasRefs(x.Type(), 0) {
+				return false, "" // a plain number/string copied out of shared state is private
+			}
+			// loaded through a shared address: the loaded references (also inside a struct copy) are shared
+			if ok, d := c.sharedRoot(x.X, sd, depth+1, seen); ok {
+				return true, d
+			}
+			// loaded from a local variable (or a field path of one) that holds shared references;
+			// a store to that very variable earlier in the same block is the one that reaches the load
+			if al, isAlloc := x.X.(*ssa.Alloc); isAlloc && x.Block() != nil {
+				var last *ssa.Store
+				for _, ins := range x.Block().Instrs {
+					if ins == ssa.Instruction(x) {
+						break
+					}
+					if st, ok := ins.(*ssa.Store); ok && st.Addr == ssa.Value(al) {
+						last = st
+					}
+				}
+				if last != nil {
+					if !hasRefs(last.Val.Type(), 0) {
+						return false, ""
+					}
+					return c.sharedRoot(last.Val, sd, depth+1, seen)
+				}
+			}
+			if ok, d := c.localHolds(x.X, sd, depth+1, seen); ok {
+				return true, d
 			}
 			return false, ""
 		}
-	case *ssa.Lookup:
-		switch x.Type().Underlying().(type) {
-		case *types.Pointer, *types.Slice, *types.Map:
-			return c.sharedRoot(x.X, sd, depth+1, seen)
+	case *ssa.Field:
+		if !hasRefs(x.Type(), 0) {
+			return false, ""
 		}
-		if tup, ok := x.Type().(*types.Tuple); ok && tup.Len() == 2 {
-			switch tup.At(0).Type().Underlying().(type) {
-			case *types.Pointer, *types.Slice, *types.Map:
-				return c.sharedRoot(x.X, sd, depth+1, seen)
-			}
-		}
-	case *ssa.Extract:
-		return c.sharedRoot(x.Tuple, sd, depth+1, seen)
-	case *ssa.Slice:
 		return c.sharedRoot(x.X, sd, depth+1, seen)
+	case *ssa.Index:
+		if !hasRefs(x.Type(), 0) {
+			return false, ""
+		}
+		return c.sharedRoot(x.X, sd, depth+1, seen)
+	case *ssa.Lookup:
+		if !hasRefs(x.Type(), 0) {
+			return false, ""
+		}
+		return c.sharedRoot(x.X, sd, depth+1, seen)
+	case *ssa.Extract:
+		if !hasRefs(x.Type(), 0) {
+			return false, ""
+		}
+		return c.sharedRoot(x.Tuple, sd, depth+1, seen)
+	case *ssa.Next:
+		return c.sharedRoot(x.Iter, sd, depth+1, seen)
+	case *ssa.Range:
+		return c.sharedRoot(x.X, sd, depth+1, seen)
+	case *ssa.Slice:
+		if ok, d := c.sharedRoot(x.X, sd, depth+1, seen); ok {
+			return true, d
+		}
+		// slicing a local array variable that holds ... (arrays of references): private memory
+		return false, ""
 	case *ssa.ChangeType:
+		return c.sharedRoot(x.X, sd, depth+1, seen)
+	case *ssa.MakeInterface:
+		return c.sharedRoot(x.X, sd, depth+1, seen)
+	case *ssa.TypeAssert:
 		return c.sharedRoot(x.X, sd, depth+1, seen)
 	case *ssa.Phi:
 		for _, e := range x.Edges {
@@ -105,9 +189,142 @@ func (c *Ctx) sharedRoot(v ssa.Value, sd *SharedDecl, depth int, seen map[ssa.Va
 			}
 		}
 	case *ssa.Call:
-		// method on shared receiver returning a reference: conservatively shared for selected getters only
+		// append(s, ...) may return (and write into) the backing array of s
+		if b, ok := x.Call.Value.(*ssa.Builtin); ok && b.Name() == "append" && len(x.Call.Args) > 0 {
+			return c.sharedRoot(x.Call.Args[0], sd, depth+1, seen)
+		}
 	}
 	return false, ""
+}
+
+// localHolds: addr is (a field/element path of) a local variable into which a value deriving
+// from shared state was stored (e.g. `d := cfg.Map[name]` - a struct copy whose slice fields still
+// alias the shared configuration).
+func (c *Ctx) localHolds(addr ssa.Value, sd *SharedDecl, depth int, seen map[ssa.Value]bool) (bool, string) {
+	base := addr
+	for {
+		switch a := base.(type) {
+		case *ssa.FieldAddr:
+			base = a.X
+			continue
+		case *ssa.IndexAddr:
+			if _, isAlloc := a.X.(*ssa.Alloc); isAlloc {
+				base = a.X
+				continue
+			}
+			if fa, ok := a.X.(*ssa.FieldAddr); ok {
+				base = fa
+				continue
+			}
+		}
+		break
+	}
+	al, ok := base.(*ssa.Alloc)
+	if !ok {
+		return false, ""
+	}
+	refs := al.Referrers()
+	if refs == nil {
+		return false, ""
+	}
+	var visit func(v ssa.Value) (bool, string)
+	visit = func(v ssa.Value) (bool, string) {
+		r := v.Referrers()
+		if r == nil {
+			return false, ""
+		}
+		for _, u := range *r {
+			switch st := u.(type) {
+			case *ssa.Store:
+				if st.Addr == v && hasRefs(st.Val.Type(), 0) {
+					if ok, d := c.sharedRoot(st.Val, sd, depth+1, seen); ok {
+						return true, d
+					}
+				}
+			case *ssa.FieldAddr:
+				if st.X == v {
+					if ok, d := visit(st); ok {
+						return true, d
+					}
+				}
+			case *ssa.IndexAddr:
+				if st.X == v {
+					if ok, d := visit(st); ok {
+						return true, d
+					}
+				}
+			}
+		}
+		return false, ""
+	}
+	return visit(al)
+}
+
+// computeSharedParams: parameters (of functions in the analysed packages) that receive a value
+// deriving from shared state at some call site outside the start-up functions (fixpoint).
+func (c *Ctx) computeSharedParams(all []*ssa.Function) {
+	c.sharedParams = map[*ssa.Parameter]string{}
+	for round := 0; round < 8; round++ {
+		changed := false
+		for _, fn := range all {
+			if fn.Blocks == nil || c.isGhostFile(fn) || fn.Pkg == nil {
+				continue
+			}
+			sd := c.shared[fn.Pkg.Pkg.Path()]
+			if sd == nil {
+				continue
+			}
+			root := fn
+			for root.Parent() != nil {
+				root = root.Parent()
+			}
+			if sd.Startup[root.Name()] || strings.HasPrefix(root.Name(), "init") {
+				continue
+			}
+			for _, b := range fn.Blocks {
+				for _, ins := range b.Instrs {
+					var cc *ssa.CallCommon
+					switch x := ins.(type) {
+					case *ssa.Call:
+						cc = x.Common()
+					case *ssa.Go:
+						cc = x.Common()
+					case *ssa.Defer:
+						cc = x.Common()
+					}
+					if cc == nil || cc.IsInvoke() {
+						continue
+					}
+					callee := cc.StaticCallee()
+					if callee == nil || callee.Blocks == nil || callee.Pkg == nil || c.shared[callee.Pkg.Pkg.Path()] == nil || c.isGhostFile(callee) {
+						continue
+					}
+					croot := callee
+					for croot.Parent() != nil {
+						croot = croot.Parent()
+					}
+					if c.shared[callee.Pkg.Pkg.Path()].Startup[croot.Name()] {
+						continue
+					}
+					for i, a := range cc.Args {
+						if i >= len(callee.Params) || !hasRefs(a.Type(), 0) {
+							continue
+						}
+						if _, done := c.sharedParams[callee.Params[i]]; done {
+							continue
+						}
+						if ok, d := c.sharedRoot(a, sd, 0, map[ssa.Value]bool{}); ok {
+							c.sharedParams[callee.Params[i]] = fmt.Sprintf("%s (from %s)", d, c.funcKey(fn))
+							changed = true
+						}
+					}
+				}
+			}
+		}
+		if !changed {
+			break
+		}
+	}
 }
 
 func (c *Ctx) sharedFlowFunc(fn *ssa.Function, sd *SharedDecl) []*Obligation {
@@ -217,6 +434,19 @@ func (c *Ctx) sharedFlowFunc(fn *ssa.Function, sd *SharedDecl) []*Obligation {
 				}
 			case *ssa.MapUpdate:
 				add(x, x.Map, "map("+typeShort(x.Map.Type())+")")
+			case *ssa.Call:
+				if bi, ok := x.Call.Value.(*ssa.Builtin); ok && len(x.Call.Args) > 0 {
+					switch bi.Name() {
+					case "append":
+						// appending to a slice that shares its backing array with shared state may
+						// overwrite elements beyond its length (in-place filtering, spare capacity)
+						add(x, x.Call.Args[0], "append("+typeShort(x.Call.Args[0].Type())+")")
+					case "copy":
+						add(x, x.Call.Args[0], "copy("+typeShort(x.Call.Args[0].Type())+")")
+					case "delete", "clear":
+						add(x, x.Call.Args[0], bi.Name()+"("+typeShort(x.Call.Args[0].Type())+")")
+					}
+				}
 			}
 		}
 	}
@@ -238,6 +468,7 @@ func (c *Ctx) sharedFlowAll(pkgPaths map[string]bool) []*Obligation {
 		}
 	}
 	sort.Slice(all, func(i, j int) bool { return c.funcKey(all[i])+all[i].Name() < c.funcKey(all[j])+all[j].Name() })
+	c.computeSharedParams(all)
 	var obs []*Obligation
 	for _, f := range all {
 		sd := c.shared[f.Pkg.Pkg.Path()]
